@@ -492,7 +492,7 @@ class Body:
     def local_ty(self, l):
         return self.locals[l]["ty"]
 
-    def origin(self, x, depth=0, through_calls=(), _seen=None):
+    def origin(self, x, depth=0, through_calls=(), _seen=None, _chooser=None):
         """Provenance of an operand / place / local as a nested tuple.
 
         ('param', i, name) | ('capture', name) | ('const', constdict) | ('call', CallSite)
@@ -507,19 +507,19 @@ class Body:
         if depth > 40:
             return ("unknown",)
         if isinstance(x, int):
-            return self._origin_local(x, depth, through_calls, _seen)
+            return self._origin_local(x, depth, through_calls, _seen, _chooser)
         if "c" in x:
-            return self._origin_place(x["c"], depth, through_calls, _seen)
+            return self._origin_place(x["c"], depth, through_calls, _seen, _chooser)
         if "m" in x:
-            return self._origin_place(x["m"], depth, through_calls, _seen)
+            return self._origin_place(x["m"], depth, through_calls, _seen, _chooser)
         if "l" in x:
-            return self._origin_place(x, depth, through_calls, _seen)
+            return self._origin_place(x, depth, through_calls, _seen, _chooser)
         if isinstance(x.get("k"), dict):
             return ("const", x["k"])
         return ("unknown",)
 
-    def _origin_place(self, pl, depth, through_calls, seen):
-        base = self._origin_local(pl["l"], depth + 1, through_calls, seen)
+    def _origin_place(self, pl, depth, through_calls, seen, chooser=None):
+        base = self._origin_local(pl["l"], depth + 1, through_calls, seen, chooser)
         for pr in pl.get("p", ()):
             if pr == "*" or pr == "opaque" or pr == "unbind":
                 continue
@@ -548,7 +548,7 @@ class Body:
                 base = ("index", base)
         return base
 
-    def _origin_local(self, l, depth, through_calls, seen):
+    def _origin_local(self, l, depth, through_calls, seen, chooser=None):
         if 1 <= l <= self.argc:
             ds = [d for d in self.defs().get(l, ()) if d[2] != "partial"]
             if not ds:
@@ -561,6 +561,10 @@ class Body:
             if 1 <= l <= self.argc:
                 return ("param", l, self.local_name(l))
             return ("local", l)
+        if len(whole) > 1 and chooser is not None:
+            d = chooser(whole)
+            if d is not None:
+                return self._origin_def(d, depth + 1, through_calls, seen, chooser)
         if len(whole) > 1:
             if depth > 12:
                 return ("local", l)
@@ -570,45 +574,45 @@ class Body:
             seen = seen | {key}
             outs = []
             for d in whole:
-                outs.append(self._origin_def(d, depth + 1, through_calls, seen))
+                outs.append(self._origin_def(d, depth + 1, through_calls, seen, chooser))
             return ("phi", outs, l)
-        return self._origin_def(whole[0], depth + 1, through_calls, seen)
+        return self._origin_def(whole[0], depth + 1, through_calls, seen, chooser)
 
-    def _origin_def(self, d, depth, through_calls, seen):
+    def _origin_def(self, d, depth, through_calls, seen, chooser=None):
         bb, j, kind, payload = d
         if kind == "call":
             cs = CallSite(self, bb, payload)
             nm = cs.callee.get("name")
-            if nm in through_calls and cs.args:
-                return self.origin(cs.args[0], depth + 1, through_calls, seen)
+            if cs.args and (through_calls(nm) if callable(through_calls) else nm in through_calls):
+                return self.origin(cs.args[0], depth + 1, through_calls, seen, chooser)
             return ("call", cs)
         if kind == "yield":
             return ("yield", bb)
         rv = payload
         k = rv["k"]
         if k == "use":
-            return self.origin(rv["op"], depth + 1, through_calls, seen)
+            return self.origin(rv["op"], depth + 1, through_calls, seen, chooser)
         if k in ("ref", "rawptr"):
-            return self._origin_place(rv["place"], depth + 1, through_calls, seen)
+            return self._origin_place(rv["place"], depth + 1, through_calls, seen, chooser)
         if k == "cast":
-            inner = self.origin(rv["op"], depth + 1, through_calls, seen)
+            inner = self.origin(rv["op"], depth + 1, through_calls, seen, chooser)
             ck = rv.get("ck", "")
             if "Unsize" in ck or "PointerCoercion" in ck or "Transmute" in ck and False:
                 return inner
             return ("cast", inner, rv.get("ty"))
         if k == "agg":
-            return ("agg", rv, [self.origin(o, depth + 1, through_calls, seen) for o in rv["ops"]])
+            return ("agg", rv, [self.origin(o, depth + 1, through_calls, seen, chooser) for o in rv["ops"]])
         if k == "binop":
-            return ("binop", rv["op"], self.origin(rv["a"], depth + 1, through_calls, seen),
-                    self.origin(rv["b"], depth + 1, through_calls, seen))
+            return ("binop", rv["op"], self.origin(rv["a"], depth + 1, through_calls, seen, chooser),
+                    self.origin(rv["b"], depth + 1, through_calls, seen, chooser))
         if k == "unop":
-            return ("unop", rv["op"], self.origin(rv["a"], depth + 1, through_calls, seen))
+            return ("unop", rv["op"], self.origin(rv["a"], depth + 1, through_calls, seen, chooser))
         if k == "discr":
-            return ("discr", self._origin_place(rv["place"], depth + 1, through_calls, seen))
+            return ("discr", self._origin_place(rv["place"], depth + 1, through_calls, seen, chooser))
         if k == "tlref":
             return ("tlref", rv["def"])
         if k == "repeat":
-            return ("repeat", self.origin(rv["op"], depth + 1, through_calls, seen))
+            return ("repeat", self.origin(rv["op"], depth + 1, through_calls, seen, chooser))
         return ("unknown",)
 
     # ---- switch helpers -------------------------------------------------------------------------
@@ -966,3 +970,78 @@ def o_str(o, depth=0):
     if k == "tlref":
         return "tls(%s)" % o[1]
     return k
+
+
+# ---- path-sensitive summaries ---------------------------------------------------------------------
+
+class PathSummary:
+    """One acyclic normal path entry->end: ordered events and path-sensitive provenance."""
+
+    def __init__(self, body, blocks):
+        self.body = body
+        self.blocks = blocks
+        self.pos = {b: i for i, b in enumerate(blocks)}
+
+    def calls(self, pred=None):
+        out = []
+        for b in self.blocks:
+            t = self.body.blocks[b]["term"]
+            if t["k"] == "call":
+                cs = CallSite(self.body, b, t)
+                if pred is None or pred(cs):
+                    out.append(cs)
+        return out
+
+    def decisions(self):
+        """[(switch_bb, discr_origin, taken_values or ('otherwise', excluded))] along the path."""
+        out = []
+        for i, b in enumerate(self.blocks[:-1]):
+            t = self.body.blocks[b]["term"]
+            if t["k"] != "switch":
+                continue
+            nxt = self.blocks[i + 1]
+            vals = [v for v, n in t["targets"] if n == nxt]
+            o = self.origin(t["discr"], at=i)
+            if vals and t["otherwise"] != nxt:
+                out.append((b, o, tuple(vals)))
+            elif t["otherwise"] == nxt:
+                excl = tuple(v for v, n in t["targets"] if n != nxt)
+                out.append((b, o, ("otherwise", excl)))
+        return out
+
+    def origin(self, x, at=None, **kw):
+        """Provenance where multiply-defined locals are resolved to the last definition on this path
+        before position `at` (index into blocks; default: end of path)."""
+        if at is None:
+            at = len(self.blocks) - 1
+        return self.body.origin(x, _chooser=lambda defs: self._choose(defs, at), **kw)
+
+    def _choose(self, defs, at):
+        best = None
+        bestk = None
+        for d in defs:
+            p = self.pos.get(d[0])
+            if p is None or p > at:
+                continue
+            if p == at and d[1] == "term":
+                continue
+            k = (p, 10 ** 9 if d[1] == "term" else d[1])
+            if bestk is None or k > bestk:
+                best, bestk = d, k
+        return best
+
+    def ret(self, **kw):
+        return self.origin(0, **kw)
+
+
+def truthy(values):
+    """Interpret a bool switch decision: ('0',) -> False, ('otherwise', ('0',)) -> True."""
+    if values == ("0",):
+        return False
+    if values and values[0] == "otherwise" and values[1] == ("0",):
+        return True
+    if values == ("1",):
+        return True
+    if values and values[0] == "otherwise" and values[1] == ("1",):
+        return False
+    return None
